@@ -26,9 +26,11 @@ type verifGArg struct {
 }
 
 func verifPlace(t *rapid.T, name string, content []byte) *verifGArg {
-	a := &verifGArg{name: name, place: gen.Pick(t, name+".place", "end", "end", "start")}
+	a := &verifGArg{name: name, place: gen.Pick(t, name+".place", "end", "end", "end-overcap", "start")}
 	if a.place == "end" {
 		a.buf = guard.End(len(content)).Fill(content)
+	} else if a.place == "end-overcap" {
+		a.buf = guard.End(len(content)).Fill(content).OverCap(gen.Uniform(t, name+".over", 1, 64))
 	} else {
 		a.buf = guard.Start(len(content)).Fill(content)
 	}
